@@ -48,6 +48,21 @@ pub fn make_scenario(prop: &str, run_seed: u64, thorough: bool) -> Scenario {
         };
         generate::RACE.with(|c| c.set(on));
     }
+    generate::clear_guards();
+    let race_on = generate::RACE.with(std::cell::Cell::get);
+    {
+        let mut pr = root.split(label("partial"));
+        let on = match prop {
+            "C05" => pr.chance(1, 3),
+            "C01" | "C07" => pr.chance(1, 8),
+            _ => false,
+        };
+        generate::PARTIAL.with(|c| c.set(on));
+        if on && prop == "C05" {
+            // the guard pattern together with abandoned sub-queries
+            generate::RACE.with(|c| c.set(true));
+        }
+    }
     let race_on = generate::RACE.with(std::cell::Cell::get);
     // CPU affinity of the run, from a stream of its own
     let cpus = {
@@ -61,13 +76,25 @@ pub fn make_scenario(prop: &str, run_seed: u64, thorough: bool) -> Scenario {
             _ => None,
         }
     };
+    let guard_shape = {
+        let mut gr = root.split(label("guard-shape"));
+        match prop {
+            "C05" => gr.chance(1, 8),
+            "C01" | "C07" => gr.chance(1, 20),
+            _ => false,
+        }
+    };
     let wide = {
         let mut wr = root.split(label("wide"));
         matches!(prop, "C01" | "C03" | "C02" | "C07") && wr.chance(1, 10)
     };
     match prop {
         "C01" | "C03" => {
-            let (program, ops) = if wide {
+            let (program, ops) = if guard_shape {
+                let p = generate::gen_program_guard(&mut w);
+                let o = generate::gen_history_guard(&mut w, &p);
+                (p, o)
+            } else if wide {
                 let p = generate::gen_program_wide(&mut w);
                 let o = generate::gen_history_wide(&mut w, &p);
                 (p, o)
@@ -110,7 +137,7 @@ pub fn make_scenario(prop: &str, run_seed: u64, thorough: bool) -> Scenario {
                     yield_every: if s.chance(1, 4) { Some(s.below(3) as usize) } else { None },
                     sched,
                     cyclic: false,
-                    check_c03: !race_on,
+                    check_c03: !race_on && !guard_shape,
                     crash_check: false,
                     sched_seed: run_seed,
                     no_values: false,
@@ -151,7 +178,7 @@ pub fn make_scenario(prop: &str, run_seed: u64, thorough: bool) -> Scenario {
                     yield_every: if s.chance(1, 4) { Some(s.below(3) as usize) } else { None },
                     sched,
                     cyclic: false,
-                    check_c03: !race_on,
+                    check_c03: !race_on && !guard_shape,
                     crash_check: false,
                     sched_seed: run_seed,
                     no_values: false,
@@ -203,12 +230,22 @@ pub fn make_scenario(prop: &str, run_seed: u64, thorough: bool) -> Scenario {
             // cancelled / an executor panicking; values are not judged there
             let kind = w.below(7);
             let conc_free = kind >= 5;
-            let program = if kind == 4 || w.chance(if conc_free { 4 } else { 2 }, 5) { generate::gen_program_tfc(&mut w) } else { generate::gen_program(&mut w, &params) };
-            let ops = if kind == 4 {
+            let program = if guard_shape {
+                generate::gen_program_guard(&mut w)
+            } else if kind == 4 || w.chance(if conc_free { 4 } else { 2 }, 5) {
+                generate::gen_program_tfc(&mut w)
+            } else {
+                generate::gen_program(&mut w, &params)
+            };
+            // guard shapes: the "fault" is the sub-query an executor abandons
+            let ops = if guard_shape {
+                generate::gen_history_guard(&mut w, &program)
+            } else if kind == 4 {
                 generate::gen_pass_panic_history(&mut w, &program)
             } else {
                 generate::gen_fault_history(&mut w, &program, &params, kind)
             };
+            let conc_free = conc_free && !guard_shape;
             let storage = if w.chance(3, 10) {
                 Storage::Db { cache_cap: *w.pick(&[1, 4, 16]), ser_workers: 1, group_max: w.range(1, 3) as u32 }
             } else {
@@ -297,7 +334,7 @@ pub fn make_scenario(prop: &str, run_seed: u64, thorough: bool) -> Scenario {
                         SchedCfg::Uniform { num: 1, den: 5, k: 2, site_salt: None, preempt: false }
                     },
                     cyclic: false,
-                    check_c03: !race_on,
+                    check_c03: !race_on && !guard_shape,
                     crash_check: prop == "C08",
                     sched_seed: run_seed,
                     no_values: false,
@@ -530,7 +567,7 @@ fn batch(args: &[String]) {
         // C05: calibrate (count the suspension points of the target), then
         // enumerate every n within this scenario
         let mut variants: Vec<Scenario> = vec![sc0.clone()];
-        if prop == "C05" {
+        if prop == "C05" && sc0.ops.iter().any(|o| matches!(o, crate::scenario::Op::Faulted { .. })) {
             let cal = run_scenario(&sc0, None);
             if cal.failure.is_none() {
                 let cap: u64 = if thorough { 400 } else { 40 };
